@@ -3,6 +3,11 @@
 package webserver
 
 import (
+	"net/http"
+	"net/url"
+	"os"
+
+	"github.com/jech/galene/diskwriter"
 	v "github.com/jech/galene/zzverif"
 )
 
@@ -63,5 +68,36 @@ func H_C12_Strings() {
 	parseGroupName("/group/", s)
 	scanETag(s)
 	etagMatch(v.String("tag", v.Choice("T", 3)), s)
+	v.Reach("end")
+}
+
+// H_C19_DeleteForm: the delete action of a group's recordings page with ANY
+// byte string as the form's filename: whatever happens, only a file lying
+// directly inside the group's own recording directory can disappear - not a
+// recording of a sub-group (g/s/...), of another group, or a file of the
+// recordings root.  The recordings tree lives in the ghost file system
+// (natively: a temporary directory) and is inspected with os.Stat afterwards.
+func H_C19_DeleteForm() {
+	L := v.Choice("L", v.Param("Lmax")+1)
+	filename := v.String("filename", L)
+	dir, _ := os.MkdirTemp("", "zzverif-rec")
+	defer os.RemoveAll(dir)
+	diskwriter.Directory = dir
+	os.MkdirAll(dir+"/g/s", 0700)
+	os.MkdirAll(dir+"/o", 0700)
+	for _, f := range []string{"/g/r", "/g/s/x", "/o/x", "/x"} {
+		os.WriteFile(dir+f, []byte("x"), 0600)
+	}
+	w := &zzRW{h: http.Header{}}
+	form := url.Values{"q": {"delete"}, "filename": {filename}}
+	r := &http.Request{Method: "POST", URL: &url.URL{Path: "/recordings/g/"}, Header: http.Header{}, Body: zzBody{}, Form: form, PostForm: form}
+	handleGroupAction(w, r, "g")
+	exists := func(p string) bool { _, err := os.Stat(dir + p); return err == nil }
+	v.Assert(exists("/g/s/x"), "a delete request for group g never removes a recording of its sub-group g/s")
+	v.Assert(exists("/o/x") && exists("/x"), "nor a recording of another group or a file of the recordings root")
+	if !exists("/g/r") {
+		v.Reach("deleted")
+	}
+	v.Assert(w.status != 0, "the request is answered")
 	v.Reach("end")
 }
